@@ -227,6 +227,8 @@ def field_src(fam, f, variant):
         dsc = f["describe"]
         if dsc["k"] == "autolength":
             s += ".describe(AutoLength(%r))" % dsc["of"]
+        elif dsc["k"] == "alias":
+            s += ".describe(LEN(%r))" % dsc["of"]      # LEN is bound in the module header (same field text, other descriptor)
         else:
             s += ".describe(Auto(%s))" % dsc["src"]
     return s
@@ -236,6 +238,23 @@ HEADER = """import re
 from bisturi.packet import Packet
 from bisturi.field import Int, Data, Bits, Ref, Em, EOS
 from bisturi.descriptor import Auto, AutoLength
+
+"""
+
+
+ALIAS_HEADER = """
+class PlainDescriptor:
+    # a descriptor without any sync hook: the attribute simply is the real field
+    def __init__(self, of):
+        self.of = of
+
+    def __get__(self, instance, owner):
+        if instance is None:
+            return self
+        return getattr(instance, self.real_field_name)
+
+    def __set__(self, instance, val):
+        setattr(instance, self.real_field_name, val)
 
 """
 
@@ -258,6 +277,10 @@ def family_src(fam, variants, local=False):
     local=True defines the classes inside a function (as a factory or a test method would): such
     classes cannot be pickled, which sends bisturi's prototype cloning down its live-object path."""
     out = [HEADER]
+    impls = set(f["describe"].get("impl") for d in fam["decls"].values() for f in d["fields"]
+                if f.get("describe", {}).get("k") == "alias")
+    if impls:
+        out.append(ALIAS_HEADER + ("LEN = AutoLength\n" if impls == {"autolength"} else "LEN = PlainDescriptor\n"))
     body = []
     for v, options in variants.items():
         for name in fam["order"]:
